@@ -34,6 +34,10 @@ def inst(name, expr, kind, nmax, props, family, meta=None, memsafe=True, unwind_
     assert name not in _names, name
     _names.add(name)
     props = {p: t for p, t in props.items() if t is not None}
+    # an instance that runs in the quick tier of one property counts in the quick tier of every
+    # property it serves (the obligation is the same; only the attribution differs)
+    if QUICK in props.values():
+        props = {p: QUICK for p in props}
     if cost is None:
         cost = (nmax + 1) * (12 if KINDS[kind]["double"] else 3)
     if mem == 3:
